@@ -16,6 +16,19 @@ class Boom(Exception):
         BOOMS.append(a[0] if a else None)
 
 
+def boom(v, key):
+    """raise a failure for value v; the exception CLASS varies with the value (a library that treats some
+    exception types specially - StopIteration inside iterator plumbing, KeyError in dict code - must still let
+    it reach the emitter)"""
+    BOOMS.append(v)
+    kind = key % 3
+    if kind == 0:
+        raise Boom.__new__(Boom)
+    if kind == 1:
+        raise StopIteration(v)
+    raise KeyError(v)
+
+
 def deep_sum(v):
     if isinstance(v, bool):
         raise TypeError("bool")
@@ -62,7 +75,7 @@ def fn1(sym):
 
         def f(x):
             if deep_sum(x) in bad:
-                raise Boom(x)
+                boom(x, deep_sum(x))
             return inner(x)
         return f
     raise KeyError(tag)
@@ -87,7 +100,7 @@ def pred(sym):
 
         def p(x):
             if deep_sum(x) in bad:
-                raise Boom(x)
+                boom(x, deep_sum(x))
             return inner(x)
         return p
     raise KeyError(tag)
@@ -109,7 +122,7 @@ def fn2(sym):
 
         def f(acc, x):
             if deep_sum(x) in bad:
-                raise Boom(x)
+                boom(x, deep_sum(x))
             return inner(acc, x)
         return f
     raise KeyError(tag)
@@ -132,7 +145,7 @@ def fnN(sym):
 
         def f(*a):
             if deep_sum(a) in bad:
-                raise Boom(a)
+                boom(a, deep_sum(a))
             return inner(*a)
         return f
     raise KeyError(tag)
